@@ -20,6 +20,7 @@ import (
 	"strconv"
 	"strings"
 	"time"
+	"unicode/utf8"
 
 	"go.step.sm/crypto/jose"
 
@@ -36,6 +37,7 @@ type Case struct {
 	Status    string `json:",omitempty"` // stored status before the call
 	PrevErr   string `json:",omitempty"` // error left by an earlier attempt ("" = none)
 	Value     string `json:",omitempty"`
+	ValueB    []byte `json:",omitempty"` // Value when it is not valid UTF-8 (JSON would rewrite it)
 	Token     string `json:",omitempty"`
 	Acct      int    // index into accounts of the key that signed the request; -1 = key without thumbprint
 	Strict    bool   `json:",omitempty"`
@@ -47,10 +49,12 @@ type Case struct {
 	AzForeign bool   `json:",omitempty"` // the authorization loaded (id from the request URL) is another identifier's: its own challenges are all pending
 	Mut       string `json:",omitempty"` // name of the mutation that produced the response (evidence only)
 
-	HTTP *HTTPW `json:",omitempty"`
-	DNS  *DNSW  `json:",omitempty"`
-	TLS  *TLSW  `json:",omitempty"`
-	DA   *DAW   `json:",omitempty"`
+	HTTP *HTTPW    `json:",omitempty"`
+	DNS  *DNSW     `json:",omitempty"`
+	TLS  *TLSW     `json:",omitempty"`
+	DA   *DAW      `json:",omitempty"`
+	Wire *WireW    `json:",omitempty"`
+	H    *HandlerW `json:",omitempty"` // op=handler
 
 	IDType string `json:",omitempty"` // op=types
 	Raw    string `json:",omitempty"`
@@ -201,7 +205,7 @@ func dialErrModel(err error) string {
 // ---------- recording DB ----------
 
 type recDB struct {
-	acme.MockDB
+	acme.MockWireDB
 	k        *Case
 	status   acme.Status
 	errType  string
@@ -247,6 +251,10 @@ func chType(t string) acme.ChallengeType {
 		return acme.TLSALPN01
 	case "da":
 		return acme.DEVICEATTEST01
+	case "wiredpop":
+		return acme.WIREDPOP01
+	case "wireoidc":
+		return acme.WIREOIDC01
 	}
 	return acme.ChallengeType("made-up-01")
 }
@@ -308,7 +316,11 @@ func (k *Case) runValidate() (out string) {
 		if k.DA != nil && k.DA.AuthzFail {
 			return nil, errors.New("authorization not found")
 		}
-		return &acme.Authorization{ID: id, AccountID: "accID", Status: azStatus, ExpiresAt: azExpires}, nil
+		owner := "accID"
+		if k.DA != nil && k.DA.AuthzOther {
+			owner = "anotherAccount"
+		}
+		return &acme.Authorization{ID: id, AccountID: owner, Status: azStatus, ExpiresAt: azExpires}, nil
 	}
 	db.MockUpdateAuthorization = func(_ context.Context, az *acme.Authorization) error {
 		if k.DA != nil && k.DA.AuthzDBFail {
@@ -329,13 +341,39 @@ func (k *Case) runValidate() (out string) {
 		payload, prov = k.DA.build(k)
 		ctx = acme.NewProvisionerContext(ctx, prov)
 	}
+	if k.Wire != nil {
+		var prov acme.Provisioner
+		payload, prov = k.Wire.build(k)
+		ctx = acme.NewLinkerContext(acme.NewProvisionerContext(ctx, prov), wireLinker)
+		db.MockGetAllOrdersByAccountID = func(context.Context, string) ([]string, error) {
+			switch k.Wire.Orders {
+			case "empty":
+				return nil, nil
+			case "error":
+				return nil, errors.New("cannot list orders")
+			}
+			return []string{"orderID"}, nil
+		}
+		store := func(context.Context, string, map[string]interface{}) error {
+			if k.Wire.TokenStore {
+				return errors.New("database refuses the write")
+			}
+			return nil
+		}
+		db.MockCreateDpopToken, db.MockCreateOidcToken = store, store
+	}
 	err := ch.Validate(ctx, db, jwk, payload)
 	ret := "ok"
 	if err != nil {
 		var ae *acme.Error
-		if errors.As(err, &ae) && ae.Status == 500 {
+		switch {
+		case errors.As(err, &ae) && ae.Status == 500:
 			ret = "ise"
-		} else {
+		case errors.As(err, &ae) && ae.Status == 400 && strings.HasSuffix(ae.Type, ":malformed"):
+			ret = "notfound" // a malformed-type problem returned unstored
+		case errors.As(err, &ae) && ae.Status == 401 && strings.HasSuffix(ae.Type, ":unauthorized"):
+			ret = "unauthorized"
+		default:
 			ret = "err"
 		}
 	}
@@ -439,6 +477,8 @@ func (k *Case) run() string {
 	switch k.Op {
 	case "validate":
 		return k.runValidate()
+	case "handler":
+		return k.runHandler()
 	case "types":
 		return k.runTypes()
 	case "rev":
@@ -464,10 +504,8 @@ func urlSafe(s string, extra string) bool {
 // cmpTarget: the request URL of http-01 goes through url.URL.String(), which the model does not
 // reproduce for characters that need escaping; every other target is compared always.
 func (k *Case) cmpTarget() bool {
-	if k.Typ != "http" {
-		return true
-	}
-	return urlSafe(k.Value, "-._~:[]*") && urlSafe(k.Token, "-._~")
+	// url.URL.String() escaping is modelled since phase 3: every target is compared
+	return true
 }
 
 func ipField(v string) string {
@@ -479,18 +517,22 @@ func ipField(v string) string {
 }
 
 func (k *Case) render() (string, bool) {
-	js, _ := json.Marshal(k)
+	kk := *k
+	if !utf8.ValidString(kk.Value) {
+		kk.ValueB, kk.Value = []byte(kk.Value), ""
+	}
+	js, _ := json.Marshal(&kk)
 	tail := " case=x" + hex.EncodeToString(js)
 	switch k.Op {
 	case "types":
 		return fmt.Sprintf("op=types idt=%s raw=%s", k.IDType, c.X(k.Raw)) + tail, true
 	case "rev":
 		return "op=rev ip=" + c.XB(k.IP) + tail, true
-	case "validate":
+	case "validate", "handler":
 	default:
 		return "", false
 	}
-	_, th, ok := account(k.Acct)
+	_, th, ok := account(k.reqAcct()) // the JWK handed to Validate is the requesting account's key
 	perr := k.PrevErr
 	if perr == "" {
 		perr = "none"
@@ -499,7 +541,7 @@ func (k *Case) render() (string, bool) {
 	if azst == "" {
 		azst = "pending"
 	}
-	head := fmt.Sprintf("op=validate typ=%s st=%s perr=%s azst=%s azexp=%s azforeign=%s val=%s tok=%s thumb=%s ip=%s strict=%s ph=%d pt=%d db=%s cmp=%s h=%s",
+	head := fmt.Sprintf("op="+k.Op+" typ=%s st=%s perr=%s azst=%s azexp=%s azforeign=%s val=%s tok=%s thumb=%s ip=%s strict=%s ph=%d pt=%d db=%s cmp=%s h=%s",
 		k.Typ, statusName(statusOf(k.Status)), perr, azst, c.B(k.AzExp), c.B(k.AzForeign), c.X(k.Value), c.X(k.Token), c.Opt(th, ok), ipField(k.Value), c.B(k.Strict), k.PortH, k.PortT,
 		c.B(!k.DBFail), c.B(k.cmpTarget()), hashTable(k))
 	var w string
@@ -531,8 +573,13 @@ func (k *Case) render() (string, bool) {
 		w = k.TLS.modelFields(k)
 	case k.DA != nil:
 		w = k.DA.modelFields(k)
+	case k.Wire != nil:
+		w = k.Wire.modelFields(k)
 	default:
 		w = "w=nothing"
+	}
+	if k.Op == "handler" {
+		w += k.handlerFields()
 	}
 	return head + " " + w + tail, true
 }
@@ -541,12 +588,17 @@ func main() {
 	n := flag.Int("n", 2000, "number of generated cases")
 	out := flag.String("out", "", "output file (input<TAB>impl)")
 	replay := flag.String("replay", "", "file of model input lines (case=… field) to re-run instead of generating")
+	stage := flag.String("stage", "validators", "validators | handler")
 	flag.Parse()
 	plantSystemRoot()
 	defer os.RemoveAll(sysRootDir)
 	initAccounts()
 	initTLS()
 	initAttest()
+	initWire()
+	defer closeWire()
+	initHandler()
+	defer closeHandler()
 	o, err := c.NewOut(*out)
 	if err != nil {
 		fmt.Fprintln(os.Stderr, err)
@@ -584,8 +636,21 @@ func main() {
 			}
 			var k Case
 			if json.Unmarshal(js, &k) == nil {
+				if k.ValueB != nil {
+					k.Value, k.ValueB = string(k.ValueB), nil
+				}
 				emit(&k)
 			}
+		}
+		return
+	}
+	if *stage == "handler" {
+		for _, k := range cornerHandler() {
+			emit(k)
+		}
+		r := c.NewRng(c.Seed()*0x2545F4914F6CDD1D ^ 0x1B873593CC9E2D51)
+		for i := 0; i < *n; i++ {
+			emit(genHandlerCase(r.Fork()))
 		}
 		return
 	}
